@@ -92,6 +92,85 @@ def restore1(t0: bool, t1: bool, t2: bool, t3: bool, text: str, fault: bool, clo
         _cleanup(sb, snap)
 
 
+TRACER_STYLES = ["none", "native", "calls", "coverage"]
+
+
+def _mine(frame, event, arg):
+    """A trace function that was installed before pedal ran (a debugger, a coverage run, a profiler)."""
+    return None
+
+
+def restore_trace(t0: bool, t1: bool, t2: bool, t3: bool, n0: bool, n1: bool, preinstalled: bool) -> bool:
+    """
+    The trace function: the sandbox runs with tracer style = second partition component (none / native / calls / coverage)
+    while a trace function of the host process is (or is not) installed; the program ends as chosen from the menu and may
+    first trigger a nested execution (an instructor callable evaluating on the same sandbox / an `import helper` of another
+    file of the submission, run by pedal's import hook). After the call returned or raised, sys.gettrace() is what it was before, and the rest of the borrowed state is back too.
+
+    pre: True
+    post: _
+    """
+    if tick():
+        return True
+    entry, style = [int(x) for x in (PART or "0,2").split(",")]
+    term = bits(t0, t1, t2, t3)
+    if term >= len(TERMINATIONS):
+        return True
+    nest = bits(n0, n1)
+    if nest == 3:
+        return True
+    if excluded("C05.restore_trace", entry=entry, style=style, term=term, nest=nest, preinstalled=preinstalled):
+        return True
+    preinstalled = True if preinstalled else False     # decide every symbolic bit while still tracing
+    from crosshair.tracers import NoTracing
+    with NoTracing():
+        return _restore_trace(entry, style, term, nest, preinstalled)
+
+
+def _restore_trace(entry, style, term, nest, preinstalled):
+    import os
+    import tempfile
+    cov_file = os.path.join(tempfile.gettempdir(), "verif_c05_coverage_%d" % os.getpid())
+    os.environ["COVERAGE_FILE"] = cov_file          # the 'coverage' style writes its data file: keep it out of the cwd
+    try:
+        return _restore_trace_body(entry, style, term, nest, preinstalled)
+    finally:
+        for f in (cov_file,):
+            try:
+                os.remove(f)
+            except OSError:
+                pass
+
+
+def _restore_trace_body(entry, style, term, nest, preinstalled):
+    r, sb = fresh()
+    sb.tracer_style = TRACER_STYLES[style]
+    state["nest"] = sb if nest == 1 else None
+    state["nest_import"] = nest == 2
+    state["term"], state["text"] = term, "x"
+    snap = _snapshot()
+    before = sys.gettrace()
+    if preinstalled:
+        sys.settrace(_mine)
+    want = sys.gettrace()
+    calls_before = state["calls"]
+    try:
+        try:
+            enter(sb, entry)
+        except BaseException as e:  # noqa
+            if xh_control(e):
+                raise
+        after = sys.gettrace()
+        if not stub_reached(calls_before):
+            flag("stub_dead")
+            return True
+        return after is want and _restored(sb, snap)
+    finally:
+        sys.settrace(before)
+        state["term"], state["nest"], state["nest_import"] = 0, None, False
+        _cleanup(sb, snap)
+
+
 def restore2(text1: str, text2: str) -> bool:
     """
     Two executions (partition "term,entry1,entry2"): the first ends as chosen, the second ends normally and must capture
